@@ -139,7 +139,22 @@ where
             fs.join(",")
         )
     };
-    let r1 = guarded(|| one(&snf(&a, flags)));
+    // the accessor forms must agree: single accessors, trans() and destruct()
+    let via_trans = |r: &yui_matrix::dense::snf::SnfResult<R>| {
+        let t = r.trans();
+        format!("{} | {} | {} | {}", show_opt(t[0]), show_opt(t[1]), show_opt(t[2]), show_opt(t[3]))
+    };
+    let single = |r: &yui_matrix::dense::snf::SnfResult<R>| {
+        format!("{} | {} | {} | {}", show_opt(r.p()), show_opt(r.pinv()), show_opt(r.q()), show_opt(r.qinv()))
+    };
+    let r1 = guarded(|| {
+        let r = snf(&a, flags);
+        let s0 = one(&r);
+        let (s1, s2) = (single(&r), via_trans(&r));
+        let (d, ts) = r.destruct();
+        let s3 = format!("{} | {} | {} | {}", show_opt(ts[0].as_ref()), show_opt(ts[1].as_ref()), show_opt(ts[2].as_ref()), show_opt(ts[3].as_ref()));
+        if s1 != s2 || s1 != s3 || !s0.starts_with(&show_mat(&d)) { "FORMS-DIFFER".to_string() } else { s0 }
+    });
     let r2 = guarded(|| one(&snf_in_place(a.clone(), flags)));
     match (r1, r2) {
         (Some(x), Some(y)) => if x == y { x } else { "FORMS-DIFFER".into() },
